@@ -270,10 +270,10 @@ void run_C03(void) {
   make_tables();
   for (unsigned k = 0; k <= 16; k++) {
     const uint64_t n = 1ull << k;
-    const unsigned reps = th ? (n <= 1024 ? 40 : (n <= 8192 ? 8 : 3)) : (n <= 1024 ? 3 : 1);
+    const unsigned reps = th ? (n <= 1024 ? 150 : (n <= 8192 ? 30 : 10)) : (n <= 1024 ? 6 : 2);
     for (int fam = 0; fam < QF_N; fam++)
       for (unsigned rep = 0; rep < reps; rep++) transform_case(n, fam, (int)((rep + fam) & 1), rep);
-    for (unsigned rep = 0; rep < (th ? 4u : 1u); rep++) evalmap_case(n, (int)(rep & 1), rep);
+    for (unsigned rep = 0; rep < (th ? 12u : 2u); rep++) evalmap_case(n, (int)(rep & 1), rep);
   }
   // module level, all N, size/stride box on small N
   unsigned ctr = 0;
